@@ -70,6 +70,10 @@ type stateMachine struct {
 	term  uint64
 	ch    chan interface{}
 	snaps *snapshots
+
+	// newest configuration entry at or below index: the membership
+	// a snapshot taken at index has to be labelled with
+	config Config
 }
 
 func (fsm *stateMachine) runLoop() {
@@ -124,6 +128,10 @@ func (fsm *stateMachine) onApply(t fsmApply) {
 		}
 		if e.typ == entryUpdate {
 			fsm.Update(e.data)
+		} else if e.typ == entryConfig {
+			if err := fsm.config.decode(e); err != nil {
+				panic(opError(err, "Log.Get(%d).decodeConfig", e.index))
+			}
 		}
 		fsm.index, fsm.term = e.index, e.term
 	}
@@ -139,6 +147,10 @@ func (fsm *stateMachine) onApply(t fsmApply) {
 			resp = fsm.Read(ne.cmd)
 		} else if ne.typ == entryUpdate {
 			resp = fsm.Update(ne.data)
+		} else if ne.typ == entryConfig {
+			if err := fsm.config.decode(ne.entry); err != nil {
+				panic(bug{"config.decode", err})
+			}
 		}
 		if ne.isLogEntry() {
 			fsm.index, fsm.term = ne.index, ne.term
@@ -166,9 +178,10 @@ func (fsm *stateMachine) onSnapReq(t fsmSnapReq) {
 		return
 	}
 	t.reply(fsmSnapResp{
-		index: fsm.index,
-		term:  fsm.term,
-		state: state,
+		index:  fsm.index,
+		term:   fsm.term,
+		config: fsm.config,
+		state:  state,
 	})
 }
 
@@ -181,7 +194,7 @@ func (fsm *stateMachine) onRestoreReq() error {
 	if err = fsm.Restore(bufio.NewReader(snap.file)); err != nil {
 		return opError(err, "FSM.Restore")
 	}
-	fsm.index, fsm.term = snap.meta.index, snap.meta.term
+	fsm.index, fsm.term, fsm.config = snap.meta.index, snap.meta.term, snap.meta.config
 	return nil
 }
 
@@ -219,11 +232,11 @@ func (r *Raft) onTakeSnapshot(t takeSnapshot) {
 		return
 	}
 	r.snapTakenCh = make(chan snapTaken, 1)
-	go func(index uint64, config Config) { // tracked by r.snapTakenCh
+	go func(index uint64) { // tracked by r.snapTakenCh
 		if verif {
 			verifPoint("snap.begin", r.snaps.dir)
 		}
-		meta, err := doTakeSnapshot(r.fsm, index, config)
+		meta, err := doTakeSnapshot(r.fsm, index)
 		if trace {
 			println(r, "doTakeSnapshot err:", err)
 		}
@@ -232,10 +245,10 @@ func (r *Raft) onTakeSnapshot(t takeSnapshot) {
 			meta: meta,
 			err:  err,
 		}
-	}(r.snaps.index+t.threshold, r.configs.Committed)
+	}(r.snaps.index + t.threshold)
 }
 
-func doTakeSnapshot(fsm *stateMachine, index uint64, config Config) (snapshotMeta, error) {
+func doTakeSnapshot(fsm *stateMachine, index uint64) (snapshotMeta, error) {
 	// get fsm state
 	req := fsmSnapReq{task: newTask(), index: index}
 	fsm.ch <- req
@@ -250,7 +263,9 @@ func doTakeSnapshot(fsm *stateMachine, index uint64, config Config) (snapshotMet
 	}
 
 	// write snapshot to storage
-	sink, err := fsm.snaps.new(resp.index, resp.term, config)
+	// label with the membership in force at the index the FSM state belongs to,
+	// not with what the raft goroutine knew when the request was accepted
+	sink, err := fsm.snaps.new(resp.index, resp.term, resp.config)
 	if err != nil {
 		return snapshotMeta{}, opError(err, "snapshots.new")
 	}
@@ -339,9 +354,10 @@ type fsmSnapReq struct {
 
 // takeSnapshot() <- fsmLoop
 type fsmSnapResp struct {
-	index uint64
-	term  uint64
-	state FSMState
+	index  uint64
+	term   uint64
+	config Config
+	state  FSMState
 }
 
 // snapLoop -> raft (after snapshot taken)
